@@ -153,9 +153,10 @@ class PathCond(Domain):
     """state = (path formula, env of boolean locals as a tuple of pairs, extra facts frozenset).
     Meant to be wrapped in flow.Disjunctive (one state per path)."""
 
-    def __init__(self, subst: dict[str, str] | None = None, gen=None):
+    def __init__(self, subst: dict[str, str] | None = None, gen=None, upd=None):
         self.subst = subst or {}
         self.gen = gen                      # stmt -> iterable of opaque facts established
+        self.upd = upd                      # (stmt, facts) -> facts  (facts that can also be retracted)
 
     @staticmethod
     def initial():
@@ -194,6 +195,8 @@ class PathCond(Domain):
             pc = _weaken(pc, st.target.id)
         if self.gen is not None:
             facts = facts | frozenset(self.gen(st))
+        if self.upd is not None:
+            facts = frozenset(self.upd(st, facts))
         return (pc, tuple(sorted(envd.items(), key=lambda kv: kv[0])), facts)
 
     def assume(self, test, s, truth):
